@@ -13,7 +13,8 @@ Doc   == JsonDeserialize(IOEnv.TRACE_FILE)
 Cases == Doc.cases
 Rules == Doc.config.rules       \* head-rule tables exported from the code: [negra |-> ..., ptb |-> ...]
 
-VARIABLES tid, l, cur, mem, errs, fid, done
+VARIABLES tid, l, cur, mem, errs, fid, done,
+          pok    \* the previous call was examined (its prerequisites held) and returned a tree
 Case == Cases[tid]
 
 OpOf(e) == [name |-> e.a, relc |-> e.args.relc, bare |-> (e.args.bare = "T"), pos |-> e.args.pos,
@@ -48,6 +49,13 @@ PrereqOK(o, A) ==
   CASE o.name = "boyd_split" -> HeadsMarked(A) /\ OneHead(A)
     [] o.name = "raising" -> (\A x \in A.nodes : x.a.split \in {"T", "F"}) /\ (\A x \in TNodes(A) : x.a.split = "F")
     [] OTHER -> TRUE
+\* A call whose prerequisite is not met says nothing about the properties - unless the call before it is the
+\* operation documented to establish that prerequisite (head marking before boyd_split, boyd_split before
+\* raising) and was itself applied as documented: then the sequence is prerequisite-respecting and the broken
+\* prerequisite is a defect of the pipeline.
+Establishes(prev, o) ==
+  \/ o.name = "boyd_split" /\ prev.a \in {"negra_mark_heads", "mark_heads_by_rules"} /\ prev.res = "ok"
+  \/ o.name = "raising" /\ prev.a = "boyd_split" /\ prev.res = "ok"
 RetRootOps == Structural \cup {"punctuation_delete", "ptb_delete_traces", "insert_terminals",
                                "substitute_terminals"}
 \* expected exceptions (the property says "rejected")
@@ -84,15 +92,20 @@ Fidelity(e, A) ==
   THEN {e.a} ELSE {}
 
 TInit == /\ tid \in 1..Len(Cases) /\ l = 0 /\ done = FALSE
-         /\ cur = Cases[tid].init /\ mem = Mem0 /\ fid = {}
-         /\ errs = {<<"C04." \o c, 0>> : c \in WFClauses(Cases[tid].init)}
+         /\ cur = Cases[tid].init /\ mem = Mem0 /\ fid = {} /\ pok = FALSE
+         /\ errs = {<<"C04." \o c, 0>> : c \in WFClauses(Cases[tid].init)} \cup
+                   (IF InventoryOK THEN {} ELSE {<<"C13.inventory", 0>>, <<"C11.inventory", 0>>})
 
 \* a step is examinable iff the current state is a well-formed tree
 TStep == /\ ~done /\ l < Len(Case.events) /\ WF(cur)
          /\ LET e == Case.events[l + 1]
                 A == Abs(cur)
                 m2 == IF PrereqOK(OpOf(e), A) THEN MemNext(OpOf(e), A, mem) ELSE Mem0
-            IN /\ errs' = errs \cup {<<c, l + 1>> : c \in StepErrs(e, A, m2)}
+                broken == ~PrereqOK(OpOf(e), A) /\ l >= 1 /\ pok /\ Establishes(Case.events[l], OpOf(e))
+            IN /\ errs' = errs \cup {<<c, l + 1>> : c \in StepErrs(e, A, m2)} \cup
+                           (IF broken THEN {<<"C04.pipeline.prerequisite_established", l + 1>>,
+                                            <<"C05.pipeline.prerequisite_established", l + 1>>} ELSE {})
+               /\ pok' = (PrereqOK(OpOf(e), A) /\ e.res = "ok")
                /\ fid' = fid \cup {<<f, l + 1>> : f \in Fidelity(e, A)}
                /\ mem' = m2
                /\ cur' = IF e.res = "ok" THEN e.post ELSE cur
@@ -113,6 +126,6 @@ TDone == /\ ~done /\ (l = Len(Case.events) \/ ~WF(cur)) /\ done' = TRUE
                nontrivial |-> (\E k \in 1..l : Case.events[k].res = "ok" /\
                                  Case.events[k].post.nodes # Case.init.nodes),
                unexamined |-> Len(Case.events) - l]))
-         /\ UNCHANGED <<tid, l, cur, mem, errs, fid>>
+         /\ UNCHANGED <<tid, l, cur, mem, errs, fid, pok>>
 TNext == TStep \/ TDone
 =============================================================================
